@@ -281,7 +281,18 @@ def case_acq_gp(t):
     x = np.array([t.float(0.02, 0.98) for _ in range(d)])
     conds = [float(np.linalg.cond(np.array(p_.posterior_states[0].chol_fact))) ** 2 for p_ in ([pred] if which in ("ei", "lcb") else [pred, pred2])]
     ymax = max(abs(v) for m_ in metrics for v in m_.values())
-    n_ok = _check_acq(acq, x, labels, ctx, which, noise_scale=max(conds) * (1.0 + ymax))
+    # first step of the numerical differentiation near the width of the narrowest feature (std / slope of the mean)
+    width = 1.0
+    for p_ in ([pred] if which in ("ei", "lcb") else [pred, pred2]):
+        s_x = float(np.array(p_.predict(x.reshape(1, -1))[0]["std"]).reshape(-1)[0])
+        slope = 1e-12
+        for i in range(d):
+            e = np.zeros(d)
+            e[i] = 1e-4
+            dm = np.array(p_.predict((x + e).reshape(1, -1))[0]["mean"]).reshape(-1) - np.array(p_.predict((x - e).reshape(1, -1))[0]["mean"]).reshape(-1)
+            slope = max(slope, float(np.max(np.abs(dm))) / 2e-4)
+        width = min(width, s_x / slope)
+    n_ok = _check_acq(acq, x, labels, ctx, which, h_cap=min(0.02, max(3.0 * width, 1e-7)), noise_scale=max(conds) * (1.0 + ymax))
     if which == "ei":
         p = pred.predict(x.reshape(1, -1))[0]
         best = pred.current_best()[0]
@@ -429,14 +440,19 @@ def case_heads(t):
     if t.bool():
         x = np.clip(x0 + np.array([t.float(-0.05, 0.05) for _ in range(d)]), 0.03, 0.97)
     got = float(np.array(acq.compute_acq(x.reshape(1, -1))).reshape(-1)[0])
+    mean_x = p1._mean(x.reshape(1, -1)).reshape(-1)
+    std_x = float(p1._std(x.reshape(1, -1))[0])
     umax = float(np.max(np.abs(us)))
     # round-off of one evaluation: cancellation in u Phi(u) + phi(u) (~ u^2 eps |f|) and the error of u itself, eps (|best| + |mean|) / s,
     # which enters through |df/du| = s Phi(u)
     Phi_max = float(norm.cdf(float(np.max(us)) + 1.0))
     noise_scale = umax**2 * abs(got) + Phi_max * (float(np.max(np.abs(m))) + float(np.max(np.abs(best)))) + (kappa * s + float(np.max(np.abs(m))) if which == "lcb" else 0.0)
-    n_ok = _check_acq(acq, x, labels, ctx, which + "-head", h_cap=0.01, noise_scale=noise_scale)
-    mean_x = p1._mean(x.reshape(1, -1)).reshape(-1)
-    std_x = float(p1._std(x.reshape(1, -1))[0])
+    # first step of the numerical differentiation near the width of the narrowest feature (std / slope of the mean)
+    slope = float(np.max(np.abs(G))) + float(np.max(np.abs(c))) * 0.1 + abs(float(np.max(np.abs(q)))) * std_x + 1e-12
+    width = std_x / slope
+    if which == "cei":
+        width = min(width, float(p2._std(x.reshape(1, -1))[0]) / (float(np.max(np.abs(G2))) + 1e-12))
+    n_ok = _check_acq(acq, x, labels, ctx, which + "-head", h_cap=min(0.01, max(3.0 * width, 1e-7)), noise_scale=noise_scale)
     if which == "ei":
         want = _ei_closed_form(mean_x, std_x, best, jitter)
         if abs(got - want) > 1e-9 * abs(want) + 1e-300:
@@ -445,7 +461,7 @@ def case_heads(t):
             raise Violation("ei-negative", f"{ctx}: x={x.tolist()}: minus EI = {got!r} > 0")
     elif which == "lcb":
         want = float(np.mean(mean_x) - kappa * std_x)
-        if abs(got - want) > 1e-12 * (abs(np.mean(mean_x)) + kappa * std_x) + 1e-300:
+        if abs(got - want) > 1e-12 * (float(np.max(np.abs(mean_x))) + kappa * std_x) + 1e-300:
             raise Violation("lcb-closed-form", f"{ctx}: compute_acq {got!r}, mean - kappa std = {want!r}")
     elif got > 0:
         raise Violation(f"{which}-negative", f"{ctx}: x={x.tolist()}: minus acquisition value {got!r} > 0")
